@@ -3,7 +3,7 @@ from . import l1, loopgen
 PROP = "C07"
 LEANCHECK_MODULES = ["Ivy.L1.Machine", "Ivy.L1.Exec", "Ivy.Mon.C07", "Ivy.L1.ProofsC07", "Ivy.Props.C07"]
 FAMILIES = ['lifecycle', 'mix', 'deadline']
-MONS = ['C07', 'C07spin', 'C07idle', 'C04', 'C06']   # 'blocks only when nothing is due' = no oversleep (C04) + no blocking wait with a task pending (C06)
+MONS = ['C07', 'C07spin', 'C07idle', 'C07tmo', 'C04', 'C06']   # 'blocks only when nothing is due' = no oversleep (C04) + no blocking wait with a task pending (C06)
 SANS = []
 RULE = ("scenario families ['lifecycle', 'mix'] (see vlib/loopgen.py) rotating over the four poll methods and the fault configurations; every log is "
         "replayed through the Lean machine (every library record must be predicted) and through the Lean monitor(s) ['C07', 'C07spin']; sanitizer "
@@ -19,7 +19,7 @@ def nontrivial(log):
 
 
 def run(tier, seed, proof):
-    return l1.run_property(PROP, tier, seed, proof, FAMILIES, MONS, SANS, nontrivial, RULE + KT_RULE,
+    return l1.run_property(PROP, tier, seed, proof, FAMILIES, MONS, SANS, nontrivial, RULE + KT_RULE + loopgen.ENUM_RULE,
                            extra_cases=lambda tier, seed: loopgen.ktimer_cases(seed) + loopgen.quit_cases())
 
 
